@@ -905,6 +905,19 @@ class Collocator:
         """
         if max_interval is not None:
             timer = Timer().start()
+            # The selection of the common time period below is label-based.
+            # If the main dimension has no coordinate labels, the positions of
+            # the selected points would get lost (where(...).dropna(...)
+            # renumbers them). Hence, we use the positions as labels then:
+            primary_dim = primary.time.dims[0]
+            if primary_dim not in primary.coords:
+                primary = primary.assign_coords(
+                    {primary_dim: np.arange(primary.time.shape[0])})
+            secondary_dim = secondary.time.dims[0]
+            if secondary_dim not in secondary.coords:
+                secondary = secondary.assign_coords(
+                    {secondary_dim: np.arange(secondary.time.shape[0])})
+
             # We do not have to collocate everything, just the common time
             # period expanded by max_interval and limited by the global start
             # and end parameter:
